@@ -6,7 +6,7 @@
    step = one call into the module, a schedule = any list of choices
    (choices that are not enabled do nothing). *)
 From PV Require Import Base.Tac Term4C.Term4CDefs Term4C.Term4CBase Term4C.Term4CMicro Term4C.Term4CInv
-  Term4C.Term4CProofs Term4C.Term4CLive Term4C.Term4CBound.
+  Term4C.Term4CProofs Term4C.Term4CLive Term4C.Term4CBound Term4C.Term4CCount.
 Local Open Scope Z_scope.
 
 (* SAFETY, every N >= 1, every schedule: as soon as one process is TERMINATED,
@@ -94,6 +94,26 @@ Theorem C11_liveness_drain : forall N c fuel, (1 <= N)%nat -> reach N c -> quies
   forall j, (j < N)%nat -> st (P (drain fuel c) j) = TERM.
 Proof. exact drain_terminates. Qed.
 Print Assumptions C11_liveness_drain.
+
+(* THE CALL-SITE OBLIGATION.  All the theorems above are about schedules of
+   [step], whose environment counts every application message sent exactly once
+   (ASend = one outgoing_message_start) and received exactly once (ARecvEnd is
+   enabled once per ARecvStart = one incoming_message_end per message).  The
+   module cannot enforce this: the communication layer (parsec/remote_dep.c,
+   parsec/remote_dep_mpi.c:remote_dep_release_incoming) must, and the check ties
+   it by real multi-rank runs in which one activation is completed in several
+   steps (harness/h_term4c_mpi.jdf: calls of outgoing_message_start summed over
+   the ranks = calls of incoming_message_end, and the taskpool terminates).
+   Necessity: two processes, one message; the disciplined run is quiescent and
+   its drained continuation terminates everywhere; if incoming_message_end is
+   called ONCE MORE for that message ([dup_end]), the system is quiescent for
+   ever and no process is ever TERMINATED, whatever the schedule. *)
+Theorem C11_double_count_refuted :
+  (quiescent 2 c_ok /\ total_sent c_ok = 1 /\ total_recv c_ok = 1 /\ forall j, (j < 2)%nat -> st (P (finish c_ok) j) = TERM) /\
+  (quiescent 2 c_dup /\ total_sent c_dup = 1 /\ total_recv c_dup = 2 /\
+   forall sched j, quiescent 2 (run c_dup sched) /\ st (P (run c_dup sched) j) <> TERM).
+Proof. exact double_count_refuted. Qed.
+Print Assumptions C11_double_count_refuted.
 
 (* non-vacuity: three processes, a message from 1 to 2 that crosses the first
    wave, a late ready of the root; after everybody has finished and the channels
